@@ -213,7 +213,18 @@ def gen(rng: Rng, tier, i):
                                       {"dataset": {"descan_tv_weight": 0.1}},
                                       {"dataset": {"center_scan_positions": True}},
                                       {"dataset": {"descan_shifts_constant": True},
-                                       "object": {"tv_weight_xy": 1e-3}}])
+                                       "object": {"tv_weight_xy": 1e-3}},
+                                      # (clip_scan_positions=False ALONE cannot be run at all at the
+                                      # pinned commit: apply_hard_constraints then assigns the
+                                      # nn.Parameter to its own property -> KeyError from nn.Module;
+                                      # not a resume matter, DESIGN 9.3 observations)
+                                      {"dataset": {"clip_scan_positions": False,
+                                                   "center_scan_positions": True}}])
+    m3 = rng.fork("modes3")
+    if m3.chance(0.2):
+        # more than two probe modes (round 15, S-C05o: anything that orders / pairs / sorts modes is
+        # invisible with one or two)
+        cfg["modes"] = m3.pick([3, 3, 4])
     c3 = rng.fork("cons3")
     if c3.chance(0.3):
         # ANY override of the library's constraint tables has to survive an interruption, in particular
@@ -532,6 +543,8 @@ def run(plan):
             bump(probes, "bilinear_centring_of_subpixel_origin")
     if cfg.get("probe_tilt") is not None and cfg["slices"] == 2:
         bump(probes, "learnable_probe_tilt")
+    if cfg["modes"] >= 3:
+        bump(probes, "modes_ge3")
     if "dataset" in (cfg.get("constraints") or {}):
         bump(probes, "dataset_constraints")
     _truthy_default = {"positivity", "orthogonalize_probe", "butterworth_order", "fix_potential_baseline_factor"}
